@@ -976,11 +976,37 @@ def _store(rng, d, relabel_p=0.5):
     d["storage_same"] = same
 
 
-def mesh_domain_edit(rng, sc, res, ref, tags):
-    """displace a point (tiny = well inside the effective domain tolerance, huge = well outside) or rewire a cell"""
+def plan_domain_tolerance(rng, sc, scale, tags):
+    """sometimes append an explicit domain tolerance (named `domain:` or the global one, which leaks to the domain) that
+    is much looser / much tighter than the mesh default, so that the point displacements below are decided by it"""
+    r = rng.random()
+    if r < 0.18:
+        v = "{:g}".format(1e-3 * scale)
+        which = rng.choice(["atol-domain", "atol-global", "rtol-domain", "atol-domain-max"])
+        if which == "atol-domain":
+            sc["atol"] = (sc["atol"] or []) + ["domain:" + v]
+        elif which == "atol-global":
+            sc["atol"] = (sc["atol"] or []) + [v]
+        elif which == "atol-domain-max":
+            sc["atol"] = (sc["atol"] or []) + ["domain:1e-5*max"]
+        else:
+            sc["rtol"] = (sc["rtol"] or []) + ["domain:1e-3"]
+        tags.append("domain-tol-loosened")
+        return "loosened"
+    if r < 0.28:
+        sc["atol"] = (sc["atol"] or []) + ["domain:0"]
+        sc["rtol"] = (sc["rtol"] or []) + ["domain:1e-14"]
+        tags.append("domain-tol-tightened")
+        return "tightened"
+    return None
+
+
+def mesh_domain_edit(rng, sc, res, ref, tags, plan=None):
+    """displace a point (tiny = well inside the effective domain tolerance, huge = well outside; with a tightened
+    tolerance: inside the mesh default but outside the given one) or rewire a cell"""
     r = rng.random()
     lm = res["lm"]
-    if r < 0.25:
+    if r < (0.7 if plan else 0.25):
         rt, at_ = py_parse_tols(sc["rtol"], False), py_parse_tols(sc["atol"], True)
         if rt in (None, "X") or at_ in (None, "X"):
             return
@@ -988,14 +1014,21 @@ def mesh_domain_edit(rng, sc, res, ref, tags):
         rel = (py_tol_for(rt, "domain") or ("num", 1e-8))[1]
         a = py_tol_for(at_, "domain")
         ab = mx * 1e-8 if a is None else (a[1] if a[0] == "num" else a[1] * mx)
-        i = rng.randrange(len(lm["points"]))
-        k = rng.randrange(3)
+        cand = [(i, k) for i, p in enumerate(lm["points"]) for k in range(3) if p[k] != 0.0]
+        if not cand:
+            return
+        i, k = rng.choice(cand)
         x = lm["points"][i][k]
         thr = max(rel * abs(x), ab)
         how = rng.choice(["tiny", "huge"])
-        if thr == 0.0 and how == "tiny":
-            return
-        delta = thr / 32.0 if how == "tiny" else max(thr * 64.0, mx * 1e-6)
+        if plan == "tightened" and rng.random() < 0.7:
+            # a tenth of the mesh's *default* tolerance: outside the (tighter) tolerance that was given
+            delta = max(1e-8 * abs(x), 1e-8 * mx) / 10.0
+            how = "huge" if delta >= 64.0 * thr else "unclear"
+        else:
+            if thr == 0.0 and how == "tiny":
+                return
+            delta = thr / 10.0 if how == "tiny" else max(thr * 64.0, mx * 1e-6)
         lm["points"][i][k] = x + delta * rng.choice([1.0, -1.0])
         res["moved"] = how
         tags.append("edit-point-" + how)
@@ -1010,12 +1043,12 @@ def mesh_domain_edit(rng, sc, res, ref, tags):
             tags.append("edit-rewire")
 
 
-def gen_mesh_pair(rng, sc, lm0, tags, domain_edits=True):
+def gen_mesh_pair(rng, sc, lm0, tags, domain_edits=True, plan=None):
     ref = {"kind": "mesh", "lm": copy.deepcopy(lm0)}
     res = {"kind": "mesh", "lm": copy.deepcopy(lm0), "topo_same": True, "moved": None}
     apply_field_edits(rng, sc, res, ref, tags)
     if domain_edits:
-        mesh_domain_edit(rng, sc, res, ref, tags)
+        mesh_domain_edit(rng, sc, res, ref, tags, plan)
     _store(rng, res)
     _store(rng, ref, relabel_p=0.0)
     if not res["storage_same"]:
@@ -1038,7 +1071,8 @@ def gen_mesh_scenario(rng):
     sc["rtol"] = gen_tokens(rng, names, "rtol", mesh=True)
     sc["atol"] = gen_tokens(rng, names, "atol", mesh=True, scale=mt["scale"] * 1e-2)
     tags = ["mesh", "style-" + str(mt["style"])]
-    sc["res"], sc["ref"] = gen_mesh_pair(rng, sc, lm0, tags)
+    plan = plan_domain_tolerance(rng, sc, mt["scale"], tags)
+    sc["res"], sc["ref"] = gen_mesh_pair(rng, sc, lm0, tags, plan=plan)
     r = rng.random()
     if r < 0.08:
         side = rng.randrange(2)
